@@ -231,7 +231,9 @@ func c18slow(seed uint64) (obs []uint64, mons [][2]string) {
 	for _, v := range seq {
 		obs = append(obs, b2u(v))
 	}
-	mon := func(sig, format string, args ...interface{}) { mons = append(mons, [2]string{sig, fmt.Sprintf(format, args...)}) }
+	mon := func(sig, format string, args ...interface{}) {
+		mons = append(mons, [2]string{sig, fmt.Sprintf(format, args...)})
+	}
 	for i, v := range seq {
 		if v != (i%2 == 0) {
 			mon("notifych-not-alternating", "NotifyCh delivered %v: position %d is %v", seq, i, v)
